@@ -255,6 +255,7 @@ func (e Env) Insertion(r *rand.Rand, class string, depth, batch int) (c *Ins, ok
 		for i := range ids {
 			ids[i] = []*big.Int{big.NewInt(1), new(big.Int).Sub(e.Mod, big.NewInt(1)), big.NewInt(2), new(big.Int).Sub(e.Mod, big.NewInt(2))}[r.Intn(4)]
 		}
+		ids[r.Intn(batch)] = new(big.Int).Sub(e.Mod, big.NewInt(1)) // r-1 is always among them
 		ok = build(r.Intn(4))
 	case "inv/start-past-end", "inv/start-2^32", "inv/start-field-wrap":
 		// the aliased leaves (index mod 2^depth) are made empty, the paths and the
